@@ -98,7 +98,7 @@ def brute_pairs(scaffolds):
     same_name_disjoint = 0
     for (i, x), (j, y) in itertools.combinations(enumerate(frags), 2):
         if x[2][1] == y[2][1]:
-            if set(range(x[2][2], x[2][3] + 1)) & set(range(y[2][2], y[2][3] + 1)):
+            if max(x[2][2], y[2][2]) <= min(x[2][3], y[2][3]):
                 pairs.add((x[:2], y[:2]))
             else:
                 same_name_disjoint += 1
@@ -108,6 +108,13 @@ def brute_pairs(scaffolds):
 def body_scan(case, rec):
     scaffolds = case["scaffolds"]
     asm = conv.mk_assembly("a", scaffolds)
+    if case.get("pickled"):
+        # some scaffolds come from a pickle (a cache, a worker process): equal names are then distinct string objects
+        import pickle
+
+        for k in case["pickled"]:
+            if k < len(asm.scaffolds):
+                asm.scaffolds[k] = pickle.loads(pickle.dumps(asm.scaffolds[k]))
     _frags, want, disjoint = brute_pairs(scaffolds)
     if case.get("alias"):
         return body_scan_aliased(case, rec, asm, want, disjoint)
@@ -252,6 +259,13 @@ def assemblies(draw):
             scaffolds.append([f"s{si + 1}", rows])
     if len(scaffolds) >= 3 and draw(st.integers(0, 3)) == 0:
         scaffolds[2][0] = scaffolds[0][0]  # an object name that re-appears after another object (legal, interleaved layout)
+    if draw(st.integers(0, 4)) == 0:
+        # chromosome-scale coordinates (a fragment may span several Mbp and contain another one far from both its ends)
+        f = draw(st.sampled_from([10**5, 2**19, 10**6, 2**33]))
+        for _n, rows in scaffolds:
+            for r in rows:
+                if r[0] == "F":
+                    r[2], r[3] = (r[2] - 1) * f + 1, r[3] * f
     case = {"scaffolds": scaffolds, "replace": [draw(st.integers(0, 50)), draw(st.integers(1, hi)), draw(st.integers(0, 3))] if draw(st.booleans()) else None}
     frs = [(si, ri) for si, (_n, rows) in enumerate(scaffolds) for ri, r in enumerate(rows) if r[0] == "F"]
     if frs and draw(st.integers(0, 5)) == 0:
@@ -260,6 +274,9 @@ def assemblies(draw):
         sj = draw(st.integers(0, len(scaffolds) - 1))
         scaffolds[sj][1].append(list(scaffolds[si][1][ri]))
         case["alias"] = [[si, ri], [sj, len(scaffolds[sj][1]) - 1]]
+        case["replace"] = None
+    elif draw(st.integers(0, 5)) == 0:
+        case["pickled"] = draw(st.lists(st.integers(0, len(scaffolds) - 1), min_size=1, max_size=2, unique=True))
         case["replace"] = None
     return case
 
